@@ -349,6 +349,7 @@ modint_field!(f_mi_193, ModInt256<0x0000000000000085, 0x0000000000000000, 0x0000
 // GFp256 is an alias of ModInt256 in both backends (gfp256.rs is not compiled).
 modint_field!(f_gfp256, GFp256);
 
+#[cfg(not(feature = "w32"))]
 prime_field!(f_gfsecp256k1, GFsecp256k1, 4,
     le: |l| lim4!(GFsecp256k1, from_w64le, l), cle: lim4!(GFsecp256k1, w64le, l),
     be: lim4be!(GFsecp256k1, from_w64be, l), cbe: lim4be!(GFsecp256k1, w64be, l),
@@ -365,6 +366,23 @@ prime_field!(f_gfsecp256k1, GFsecp256k1, 4,
         },
     });
 
+// On the 32-bit backend GFsecp256k1 is a ModInt256 alias (plus mul21).
+#[cfg(feature = "w32")]
+prime_field!(f_gfsecp256k1, GFsecp256k1, 4,
+    le: |l| lim4!(GFsecp256k1, from_w64le, l), cle: lim4!(GFsecp256k1, w64le, l),
+    be: lim4be!(GFsecp256k1, from_w64be, l), cbe: lim4be!(GFsecp256k1, w64be, l),
+    enc: |e| e.encode32(),
+    extra: |x, a, rg, put| {
+        "mul3" => { let v = x(0, rg)?; put(v.mul3(), rg) },
+        "mul21" => { let v = x(0, rg)?; put(v.mul21(), rg) },
+        "enc32" => { let v = x(0, rg)?; Ok(ohex(&v.encode32())) },
+        "decode32" => {
+            let b = bytes(arg(a, 0)?)?;
+            let (y, r) = GFsecp256k1::decode32(&b);
+            Ok(format!("{} {}", ohex(&y.encode32()), ou32(r)))
+        },
+    });
+
 fn arr7(l: &[u64]) -> [u64; 7] {
     let mut r = [0u64; 7];
     r.copy_from_slice(l);
@@ -376,6 +394,7 @@ fn arr7be(l: &[u64]) -> [u64; 7] {
     r
 }
 
+#[cfg(not(feature = "w32"))]
 prime_field!(f_gf448, GF448, 7,
     le: |l| GF448::from_w64le(arr7(l)), cle: GF448::w64le(arr7(l)),
     be: GF448::from_w64be(arr7be(l)), cbe: GF448::w64be(arr7be(l)),
@@ -418,8 +437,14 @@ macro_rules! gfgen_field {
     };
 }
 
+// On the 32-bit backend GF448 is a gfgen-defined type.
+#[cfg(feature = "w32")]
+gfgen_field!(f_gf448, GF448, 7);
 gfgen_field!(f_sc448, crrl::ed448::Scalar, 7);
 
+// (the w32 backend's define_gfgen! refers to crate-private helpers and cannot
+// be instantiated from another crate, so these exist only on the w64 backend)
+#[cfg(not(feature = "w32"))]
 pub mod gg {
     use crrl::backend::define_gfgen;
 
@@ -459,12 +484,19 @@ pub mod gg {
     define_gfgen!(G512, P512, g512mod, false);
 }
 
+#[cfg(not(feature = "w32"))]
 gfgen_field!(f_g127, gg::G127, 2);
+#[cfg(not(feature = "w32"))]
 gfgen_field!(f_g192, gg::G192, 3);
+#[cfg(not(feature = "w32"))]
 gfgen_field!(f_g256, gg::G256, 4);
+#[cfg(not(feature = "w32"))]
 gfgen_field!(f_g25519, gg::G25519, 4);
+#[cfg(not(feature = "w32"))]
 gfgen_field!(f_g320, gg::G320, 5);
+#[cfg(not(feature = "w32"))]
 gfgen_field!(f_g384, gg::G384, 6);
+#[cfg(not(feature = "w32"))]
 gfgen_field!(f_g512, gg::G512, 8);
 
 // ------------------------------------------------------------------------
@@ -683,8 +715,20 @@ pub struct FieldRegs {
     mi_spec2: Vec<ModInt256<0xFFFFFFFFFFFFFF43, 0xFFFFFFFFFFFFFFFF, 0xFFFFFFFFFFFFFFFF, 0xFFFFFFFFFFFFFFFF>>,
     mi_spec3: Vec<ModInt256<0x20CD9255FD615923, 0xACAFC103CD968A25, 0xFFFFFFFFFFFFFFFE, 0xFFFFFFFFFFFFFFFF>>,
     mi_193: Vec<ModInt256<0x0000000000000085, 0x0000000000000000, 0x0000000000000000, 0x0000000000000001>>,
-    g127: Vec<gg::G127>, g192: Vec<gg::G192>, g256: Vec<gg::G256>, g25519: Vec<gg::G25519>,
-    g320: Vec<gg::G320>, g384: Vec<gg::G384>, g512: Vec<gg::G512>,
+    #[cfg(not(feature = "w32"))]
+    g127: Vec<gg::G127>,
+    #[cfg(not(feature = "w32"))]
+    g192: Vec<gg::G192>,
+    #[cfg(not(feature = "w32"))]
+    g256: Vec<gg::G256>,
+    #[cfg(not(feature = "w32"))]
+    g25519: Vec<gg::G25519>,
+    #[cfg(not(feature = "w32"))]
+    g320: Vec<gg::G320>,
+    #[cfg(not(feature = "w32"))]
+    g384: Vec<gg::G384>,
+    #[cfg(not(feature = "w32"))]
+    g512: Vec<gg::G512>,
     gfb127: Vec<GFb127>, gfb254: Vec<GFb254>,
 }
 
@@ -710,12 +754,19 @@ pub fn dispatch(ty: &str, op: &str, a: &[&str], r: &mut FieldRegs) -> R {
         "mi_spec2" => f_mi_spec2(op, a, &mut r.mi_spec2),
         "mi_spec3" => f_mi_spec3(op, a, &mut r.mi_spec3),
         "mi_193" => f_mi_193(op, a, &mut r.mi_193),
+        #[cfg(not(feature = "w32"))]
         "g127" => f_g127(op, a, &mut r.g127),
+        #[cfg(not(feature = "w32"))]
         "g192" => f_g192(op, a, &mut r.g192),
+        #[cfg(not(feature = "w32"))]
         "g256" => f_g256(op, a, &mut r.g256),
+        #[cfg(not(feature = "w32"))]
         "g25519" => f_g25519(op, a, &mut r.g25519),
+        #[cfg(not(feature = "w32"))]
         "g320" => f_g320(op, a, &mut r.g320),
+        #[cfg(not(feature = "w32"))]
         "g384" => f_g384(op, a, &mut r.g384),
+        #[cfg(not(feature = "w32"))]
         "g512" => f_g512(op, a, &mut r.g512),
         "gfb127" => f_gfb127(op, a, &mut r.gfb127),
         "gfb254" => f_gfb254(op, a, &mut r.gfb254),
